@@ -62,6 +62,28 @@ theorem MNTM.validate_tapes (M : MNTM σ Γ) (h : M.validate = .ok ()) :
   simp only [firstErr_eq_ok, Res.andThen_eq_ok, guardE_eq_ok, decide_eq_true_eq] at ht
   exact ht
 
+/-- A valid MNTM: the blank is a tape symbol, and every move of every transition writes a tape
+symbol. -/
+theorem MNTM.validate_symbols (M : MNTM σ Γ) (h : M.validate = .ok ()) :
+    M.blank ∈ M.tapeSyms ∧
+    ∀ kv ∈ M.trans, ∀ e ∈ kv.2, ∀ t ∈ e.2, ∀ m ∈ t.2, m.1 ∈ M.tapeSyms := by
+  unfold MNTM.validate at h
+  simp only [Res.andThen_eq_ok] at h
+  have h1 := h.1
+  have h2 := h.2.1
+  unfold validateSymbols at h1
+  simp only [Res.andThen_eq_ok, guardE_eq_ok, decide_eq_true_eq] at h1
+  refine ⟨h1.2, ?_⟩
+  simp only [firstErr_eq_ok] at h2
+  intro kv hkv e he t ht m hm
+  have hrow := h2 kv hkv
+  unfold MNTM.validateRow at hrow
+  simp only [Res.andThen_eq_ok, firstErr_eq_ok] at hrow
+  have hres := hrow.2.2 e.2 (List.mem_map.mpr ⟨e, he, rfl⟩) t ht m hm
+  unfold validateResult at hres
+  simp only [Res.andThen_eq_ok, guardE_eq_ok, decide_eq_true_eq] at hres
+  exact hres.2.1
+
 /-! ### association lists under `map` -/
 
 theorem alookup_map_val {κ β β' : Type} [DecidableEq κ] (f : β → β') (k : κ) (l : List (κ × β)) :
